@@ -628,7 +628,10 @@ class Frame:
         if isinstance(v, DictV):
             return Opaque("key", "str")
         if isinstance(v, Arr):
-            return Arr(v.owners)  # iterating a 2-D array yields row views
+            if v.owners:
+                # storage shared with an input is a column of the node table (1-D): iterating it yields scalars, which alias nothing
+                return Opaque("scalar element of a column")
+            return Arr(v.owners)  # iterating a fresh 2-D array yields row views (of that fresh array)
         if isinstance(v, Obj) and v.cls is not None:
             it = v.cls.lookup_method("__iter__")
             if it is not None:
@@ -819,7 +822,11 @@ class Frame:
         if isinstance(base, Arr):
             if self._is_fancy(e.slice, idx):
                 return Arr(EMPTY)
-            return Arr(base.owners)  # basic slicing / element: view (or scalar)
+            if base.owners and not isinstance(e.slice, (ast.Slice, ast.Tuple)) and not (isinstance(e.slice, ast.Constant) and e.slice.value is Ellipsis) \
+                    and isinstance(idx, Opaque):
+                # a column of the node table (1-D) indexed by a scalar: a numpy scalar, which aliases nothing (`v = col[i]; v += 1` re-binds v)
+                return Opaque("scalar element of a column")
+            return Arr(base.owners)  # basic slicing: a view
         if isinstance(base, DictV):
             return base.val if base.val is not None else Opaque("dict value")
         if isinstance(base, ListV):
